@@ -490,7 +490,7 @@ pub fn run(ctx: &Ctx) {
          catch_unwind and a watchdog. Stage 1 enumerates, for 75 cores (lengths 0..40; writers, reopened writers, writers with cleared \
          blocks, partially synced replicas, reopened replicas), the request family {no indexed part | block | hash with index from the \
          boundary set around 0/length/2*length/byte length/2^16/2^32/2^40-1 and nodes in {0,1,3,2^16}} x {seek absent or 6 boundary \
-         offsets} x {upgrade absent or start,length from 8 boundary values} (complete in thorough, every 5th tuple in quick). Stage 2: \
+         offsets} x {upgrade absent or start,length from 8 boundary values} (complete in thorough, every 2nd tuple in quick). Stage 2: \
          seeded-random sessions followed by random peer calls (boundary-relative request tuples to writer and replica; structurally \
          arbitrary proofs; honest proofs altered by 1-3 alterations of the C04 set), stateful. After calls the core must still answer \
          info/get(0)/an honest request and (writers) append + read-back. Non-trivial = the call got past the first range check \
@@ -498,7 +498,7 @@ pub fn run(ctx: &Ctx) {
     );
     ctx.assume("numeric fields below 2^40, node hashes 32 bytes (what the wire decoder produces)");
     let specs = core_specs();
-    let stride = ctx.tier.pick(5usize, 1usize);
+    let stride = ctx.tier.pick(2usize, 1usize);
     // chunk the family of each core
     let mut cases: Vec<FamilyCase> = vec![];
     for spec in &specs {
@@ -514,7 +514,7 @@ pub fn run(ctx: &Ctx) {
     let n = cases.len() as u64;
     indexed_stage(ctx, "request-family", n, |i| cases[i as usize].clone(), run_family);
     ctx.extra("request_family_stage", json!({"cores": specs.len(), "stride": stride, "chunks": n, "exhaustive": stride == 1}));
-    random_stage(ctx, "random-peer-calls", ctx.tier.pick(6_000, 150_000), peercase_strategy, |c: &PeerCase, local| run_peercase(c, local));
+    random_stage(ctx, "random-peer-calls", ctx.tier.pick(30_000, 150_000), peercase_strategy, |c: &PeerCase, local| run_peercase(c, local));
 }
 
 pub fn replay(case: &Value) -> Check {
